@@ -70,11 +70,13 @@ theorem lt_convolution [DecidableEq K] (hE : IsExp E) (s : K) (f g : ExpPoly K)
     (hf : NonPole f s) (hg : NonPole g s) :
     L E (conv f g) s = L E f s * L E g s := L_conv E hE s f g hf hg
 
-/-- the lower limit is 0⁻: an impulse at the origin is fully included -/
+/-- the lower limit is 0⁻: an impulse at the origin is fully included.  DEFINITIONAL: this unfolds `Term.L` on `dl 1 0 0` — deltas are
+    formal pairs (no integral anchor exists for them); the theorem records the convention of the specification, it is not derived -/
 theorem lt_delta_at_origin (hE : IsExp E) (s : K) : L E [Term.dl 1 0 0] s = 1 := by
   simp [Term.L, pw, hE.zero]
 
-/-- what the signal does before `t = 0` does not matter -/
+/-- what the signal does before `t = 0` does not matter.  DEFINITIONAL (`rfl`): `Signal.L` is defined as `L x.post`; records the
+    convention of the specification (the integral counterpart is `lt_is_integral`: the integral runs over `(0, ∞)` only) -/
 theorem lt_ignores_negative_time (s : K) (pre₁ pre₂ : List (K × Nat × K)) (post : ExpPoly K) :
     (Signal.mk pre₁ post).L E s = (Signal.mk pre₂ post).L E s := rfl
 
@@ -91,13 +93,13 @@ end A
 section B
 variable {K : Type} [Field K] [LinearOrder K] [IsStrictOrderedRing K]
 
-/-- `expr == 1`:  `c ↦ c / s` -/
-theorem const_entry (env : Env K) (hE : IsExp env.E) (c : K) :
+/-- `expr == 1`:  `c ↦ c / s`  (at a non-pole point `s ≠ 0`: the totalised `c/0 = 0` is not relied on) -/
+theorem const_entry (env : Env K) (hE : IsExp env.E) (c : K) (_hs : env.s ≠ 0) :
     lcapyTerm env (.prod c []) = (.const, some (c / env.s)) ∧
     specValue env (.prod c []) = some (c / env.s) := const_entry' env hE c
 
-/-- `exp(a t)`:  `c / (s − a)` -/
-theorem exp_entry (env : Env K) (hE : IsExp env.E) (c a : K) (ha : a ≠ 0) :
+/-- `exp(a t)`:  `c / (s − a)`  (at a non-pole point `s ≠ a`) -/
+theorem exp_entry (env : Env K) (hE : IsExp env.E) (c a : K) (ha : a ≠ 0) (_hs : env.s - a ≠ 0) :
     lcapyTerm env (.prod c [.exp a]) = (.exp, some (c / (env.s - a))) ∧
     specValue env (.prod c [.exp a]) = some (c / (env.s - a)) := exp_entry' env hE c a ha
 
